@@ -66,6 +66,10 @@ CHECKS = {
    text='Estimation.tla states a concave separable model with bounds and fixed parameters, its constrained maximiser (clip of the mean), exact LL / gradient / Hessian / BHHH and the KKT conditions; TLC checks OptimumSound and LocallyBest for every bound configuration x start x fixed pattern x algorithm and emits the expected outcome; each behaviour is one real estimate() (all 9 algorithm names) checked for feasibility, monotonicity, agreement of the reported figures with the likelihood at the reported point, KKT, the maximum value, write-back of starting values by name; the dialogue between estimation object, minimised function and optimiser is recorded by wrappers and validated by EstimationTrace.tla (phase order, sign flip of the same point, determinism, requests inside bounds, final evaluation at the returned point, results = final evaluation).',
    note='trusted: TLC; bit-for-bit comparisons (negation, identity of vectors) are computed by the driver and judged by the trace spec; estimates compared at 5e-4, maximum value at 1e-6; concave models only',
    technique='TLA+ specs Estimation/EstimationTrace + TLC, spec->code replay of estimations and code->spec validation of the optimiser dialogue', ref='5 C07'),
+ 'C19': dict(
+   text='Sampling.tla models alternatives with attributes, strata with sample sizes, an optional second (MEV) partition and the actions SampleStratum / Assemble / SecondSample; TLC checks the protocol (chosen first, no duplicates, exactly k per stratum all from the stratum, correction ln(k/n), weight n/k, combined variables from the individual and the alternative own attributes), that acceptance of a row is equivalent to membership in the behaviours, and that complete sampling gives the exact full-logit probability; rows produced by the real sample_and_merge (many partitions, sizes, choices, seeds, input variants) are judged by SamplingTrace.tla, which also returns the exact corrected logit weights compared with GenerateModel.get_logit; fully sampled instances with exact logit / nested / cross-nested likelihoods are replayed into get_logit, get_nested_logit, get_cross_nested_logit and the full-choice-set models; input validation reactions are judged by the spec.',
+   note='trusted: TLC; the statistical law of the draw is not part of the property; partially sampled nested / cross-nested likelihoods have no exact reference',
+   technique='TLA+ specs Sampling/SamplingTrace + TLC, code->spec validation of sampled rows and spec->code replay of complete sampling', ref='5 C19'),
 }
 
 def cmd(pid, tier):
